@@ -1130,6 +1130,7 @@ class Histogram:
                 + " provided. Use the header for all histograms."
             )
             warnings.warn(error_message)
+            hist_labels = hist_labels * self.number_of_histograms_
         elif self.number_of_histograms_ > 1 and (
             len(hist_labels) > 1
             and len(hist_labels) < self.number_of_histograms_
